@@ -39,11 +39,12 @@ AUDIT = 'XsVerif.Audit.C15'
 LEAN_TARGETS = ['XsVerif.Props.C15', 'drv_c15']
 LEANCHECK = ['XsVerif.Model.Upa', 'XsVerif.Lemmas.Upa', 'XsVerif.Model.CheckModel', 'XsVerif.Lemmas.CheckModel',
              'XsVerif.Lemmas.CheckModelFlat', 'XsVerif.Lemmas.FlatSeqLang', 'XsVerif.Lemmas.CheckModelSeq',
-             'XsVerif.Lemmas.CheckModelErr', 'XsVerif.Props.C15']
+             'XsVerif.Lemmas.CheckModelErr', 'XsVerif.Lemmas.CheckModelSeqRep', 'XsVerif.Props.C15']
 RULE = ('case = (XSD version, content model). Models: the complete family with ≤2 leaves over {a,b}, sequence/choice '
         'nested to depth 2, occurrences from {1,?,*,{1,2}} (46k models per version, complete in the thorough tier, sampled '
         'in the quick tier), every choice of ≤3 plain element references (the fragment of checkModel_refines_partial), '
         'every sequence{1,1}/{0,1} of ≤3 plain element references (the fragment of checkModel_refines_flat_seq_partial), '
+        'every repeating sequence ({0,∞},{1,∞},{2,2},{1,2}) of ≤3 plain element references (checkModel_flat_seq_refusal_sound), '
         'XSD 1.1 wildcards with notQName ##defined / ##definedSibling among the wildcard forms, models under XSD 1.1 '
         'open content (interleave / suffix), '
         'seeded members of the same family with all of {1,?,*,+,{2,2},{1,2},{0,0}}, with a wildcard '
@@ -117,12 +118,18 @@ _pinned: Optional[dict] = None
 
 
 def pinned() -> dict:
+    """deviating models of the seed-independent families, recorded per algorithm variant (fallback matcher when the
+    Lean driver is unavailable): the pinned tree, the fully patched tree; a partially patched tree uses the union"""
     global _pinned
     if _pinned is None:
         _pinned = {'1.0': set(), '1.1': set()}
         if PINNED_FILE.exists():
             data = json.loads(PINNED_FILE.read_text())
-            _pinned = {v: set(data.get(v, [])) for v in ('1.0', '1.1')}
+            pat = data.get('patched') or {}
+            v = variant()
+            for k in ('1.0', '1.1'):
+                a, b = set(data.get(k, [])), set(pat.get(k, []))
+                _pinned[k] = a if v == 'pinned' else (b if v == 'patched' else a | b)
     return _pinned
 
 
@@ -311,6 +318,9 @@ def run_batch(ctx: Ctx, drv: Optional[Driver], models: list[tuple], v11: bool, f
             # (serialisation / model drift)
             ctx.mismatch(fam + ' fragment: port vs oracle contradicts the exactness theorem of the fragment', case,
                          {'port': m['res']}, {'upa': o, 'edc': ans['edc']})
+        if fam in ('flat-seq', 'flat-seq-rep') and m['res'] != 'ok' and det:
+            ctx.mismatch('flat sequence refused by the port although deterministic: contradicts '
+                         'checkModel_flat_seq_refusal_sound', case, {'port': m['res']}, {'upa': o})
         if impl_ok != expected:
             detail = {'impl_ok': impl_ok, 'impl_error': ob['kind'], 'expected_ok': expected, 'upa': o, 'edc': ans['edc'],
                       'port_ok': m['res'] == 'ok', 'port': m['res'], 'shared': ob['intro'].shared}
@@ -335,6 +345,7 @@ def families(ctx: Ctx, with_driver: bool = True):
         for v, e in (m.get('expect') or {}).items():
             WIT_EXPECT[(v, json.dumps(tup(m['ast']), default=list))] = e
     fseq = c15.flat_seqs()
+    fseqr = c15.flat_seqs_rep()
     for v11 in (False, True):
         yield 'theorem-witnesses', v11, [tup(m['ast']) for m in wit if ('1.1' if v11 else '1.0') in m['versions']]
         yield 'exh2-core', v11, (rng.sample(core, 1500) if ctx.quick() else core)
@@ -347,6 +358,7 @@ def families(ctx: Ctx, with_driver: bool = True):
         yield 'edc', v11, edc
         if not with_driver:
             continue
+        yield 'flat-seq-rep', v11, (rng.sample(fseqr, 600) if ctx.quick() else fseqr)
         yield 'exh2-allocc', v11, [c15.small_random(rng, rng.choice([1, 2, 2, 2]), ['a', 'b'], cm.OCC_SMALL)
                                    for _ in range(ctx.pick(1000, 15000))]
         yield 'exh2-any', v11, [c15.small_random(rng, 2, ['a'], cm.OCC_SMALL, any_p=0.5) for _ in range(ctx.pick(800, 15000))]
@@ -424,6 +436,7 @@ def make_pinned() -> None:
     import warnings
     warnings.simplefilter('ignore')
     out: dict[str, list[str]] = {'1.0': [], '1.1': []}
+    detect_fixes()
     ctx = Ctx('C15', 'thorough', 0)
     for fam, v11, models in families(ctx, False):
         for i in range(0, len(models), 50):
@@ -438,8 +451,16 @@ def make_pinned() -> None:
                 if (ob['kind'] is None) != (ref and c15.edc_ref(ast)):
                     out['1.1' if v11 else '1.0'].append(c15.show(ast))
     PINNED_FILE.parent.mkdir(parents=True, exist_ok=True)
-    PINNED_FILE.write_text(json.dumps({k: sorted(set(v)) for k, v in out.items()}, indent=0, ensure_ascii=False) + '\n')
-    print({k: len(set(v)) for k, v in out.items()})
+    data = json.loads(PINNED_FILE.read_text()) if PINNED_FILE.exists() else {}
+    rec = {k: sorted(set(v)) for k, v in out.items()}
+    if variant() == 'pinned':
+        data.update(rec)
+    elif variant() == 'patched':
+        data['patched'] = rec
+    else:
+        raise SystemExit('make_pinned: partially patched tree (%s): nothing recorded' % variant())
+    PINNED_FILE.write_text(json.dumps(data, indent=0, ensure_ascii=False) + '\n')
+    print(variant(), {k: len(v) for k, v in rec.items()})
 
 
 def tup(x: Any) -> Any:
